@@ -733,9 +733,15 @@ func Ticket(email string, admin bool) string {
 	return "oauth|" + email + "|" + a
 }
 
+// TicketNoEmail stands for a valid OAuth token whose user record has an empty e-mail address.
+const TicketNoEmail = "oauth-noemail"
+
 func (f *Fake) oauthUser(ticket string) ([]byte, *AppError) {
 	parts := strings.Split(ticket, "|")
-	if len(parts) != 3 || parts[0] != "oauth" || parts[1] == "" {
+	if ticket == TicketNoEmail {
+		// a valid token whose identity carries no e-mail address
+		parts = []string{"oauth", "", "0"}
+	} else if len(parts) != 3 || parts[0] != "oauth" || parts[1] == "" {
 		return nil, &AppError{Code: 4, Detail: "OAUTH_INVALID_TOKEN"}
 	}
 	var out []byte
